@@ -17,6 +17,8 @@ OpsContract == {"partner", "tensordot", "transpose"}
 OpsArith == {"arith", "diag", "reduce", "transpose", "einsum"}
 OpsAlgebra == {"arith", "diag", "reduce", "conj", "expand", "phase", "einsum"}
 OpsEinsum == {"einsum", "transpose", "conj", "phase", "reduce"}
+OpsReshape == {"reshape", "transpose", "phase"}
+OpsReshapeOnly == {"reshape"}
 OpsChain == {"chain"}
 OpsChainD == {"chain", "chain_dangling"}
 OpsStruct == {"transpose", "conj", "expand", "fuse", "phase"}
